@@ -493,8 +493,10 @@ fn replay(case: &Value) -> Value {
                 None,
             );
             let dir = p.default_directory();
-            files.push(p.add_file(LineString::String(b"first.c".to_vec()), dir, None));
-            files.push(p.add_file(LineString::String(b"second.c".to_vec()), dir, None));
+            // "nfiles" files f1.c, f2.c, ... ("f": n of a FileIndex value names the n-th)
+            for k in 1..=u["nfiles"].as_u64().unwrap_or(2) {
+                files.push(p.add_file(LineString::String(format!("f{}.c", k).into_bytes()), dir, None));
+            }
             p
         } else {
             LineProgram::none()
